@@ -19,7 +19,7 @@ EXPLANATION = (
     "Serialize body is collect_str(self) and every visitor overrides only expecting/visit_str = str::parse. R09.6: key ids must "
     "decode to exactly 33 bytes. Decides the construction; says nothing about strings beyond what these constructions imply.")
 ASSUMPTIONS = ["rustc type checking / MIR construction are correct", "core::str::strip_prefix / split_once / fmt::Formatter::write_str behave as documented"]
-FLOORS = {"R09.1": 6, "R09.2": 6, "R09.5": 6, "R09.6": 1, "R09.3": 4, "R09.4": 4}
+FLOORS = {"R09.1": 6, "R09.2": 6, "R09.5": 6, "R09.6": 1, "R09.3": 4, "R09.4": 4, "R09.7": 2}
 
 STORED_FIELD = {"SealedToken": 0, "KeyText": 0, "KeyId": 0, "PieWrappedKey": 0, "PasswordWrappedKey": 0, "SealedKey": 0}
 
